@@ -52,6 +52,10 @@ type Env struct {
 	Fix  bool `json:"fix"`  // probed from the real checker, not chosen (fixes/F19a.diff)
 	FixC bool `json:"fixc"` // probed: virtualServerRequiresEndpointsUpdate looks at upstream.Backup (fixes/F19c.diff)
 	FixB bool `json:"fixb"` // probed: the EndpointSlice delete handler queues the Service (fixes/F19b.diff)
+	// event level: the Secrets configured as -default-server-tls-secret / -wildcard-tls-secret ("" = none); they may
+	// also be referenced by the resources
+	DefaultSecret  string `json:"default_secret,omitempty"`
+	WildcardSecret string `json:"wildcard_secret,omitempty"`
 }
 
 type SvcSpec struct {
@@ -229,6 +233,8 @@ type EvObs struct {
 	Queued   int    `json:"queued"`   // tasks the handler put on the work queue
 	Regen    bool   `json:"regen"`    // the configuration file of the resource was written again
 	Stale    bool   `json:"stale"`    // after the event, regenerating the resource would still change its file
+	Dep      bool   `json:"dep"`      // the extended resource was observed to depend on the object (create*Ex level)
+	Recreate string `json:"recreate,omitempty"` // history: this Policy was stored unusable, seen by a Secret sync, deleted and created again usable before the event
 	Err      string `json:"err,omitempty"`
 }
 
@@ -1032,6 +1038,12 @@ func genCase(r *vh.Rng, id int, fix bool) Case {
 	default:
 		e.Plus, e.AP, e.Dos = true, r.Chance(4, 5), r.Chance(4, 5)
 	}
+	if r.Chance(1, 3) {
+		e.DefaultSecret = pick(r, nss) + "/" + pick(r, secNames)
+	}
+	if r.Chance(1, 5) {
+		e.WildcardSecret = pick(r, nss) + "/" + pick(r, secNames)
+	}
 	c := Case{Fam: "res", ID: id, Env: e, Cluster: genCluster(r, e)}
 	switch r.Intn(12) {
 	case 10, 11:
@@ -1528,7 +1540,7 @@ func analyze(w *world, c *Case, res *k8s.VerifC15Resource, kind string) (obs Obs
 	}
 	obs.Events = []EvObs{}
 	if os.Getenv("VERIF_C15_NOEVENTS") == "" {
-		obs.Events = runEvents(c, res.Key, obs.Rev)
+		obs.Events = runEvents(c, res.Key, obs.Rev, obs.Pols)
 	}
 	// sanity: the base is reproducible
 	if again := w.createEx(res.Key); !reflect.DeepEqual(base, again) {
@@ -1819,7 +1831,8 @@ func buildFull(c *Case) (*world, error) {
 		Config: configs.NewDefaultConfigParams(ctx, c.Env.Plus), MGMTCfgParams: configs.NewDefaultMGMTConfigParams(ctx),
 		TemplateExecutor: t1, TemplateExecutorV2: t2, IsPlus: c.Env.Plus, NginxVersion: nginx.NewVersion(ver)})
 	cnf.EnableReloads()
-	w.v = k8s.NewVerifC15(k8s.VerifC15Opts{Plus: c.Env.Plus, AppProtect: c.Env.AP, Dos: c.Env.Dos, SecretStore: w.sec, Configurator: cnf})
+	w.v = k8s.NewVerifC15(k8s.VerifC15Opts{Plus: c.Env.Plus, AppProtect: c.Env.AP, Dos: c.Env.Dos, SecretStore: w.sec, Configurator: cnf,
+		DefaultServerSecret: c.Env.DefaultSecret, WildcardTLSSecret: c.Env.WildcardSecret})
 	for _, s := range c.Cluster.Services {
 		w.svc[s.Key] = s
 		_ = w.v.Services.Add(mkService(s, 0))
@@ -2218,17 +2231,66 @@ func snapshot(m map[string]string) map[string]string {
 	return out
 }
 
-func oneEvent(c *Case, resKey, kind, key, op string) (ev EvObs) {
-	ev = EvObs{Kind: kind, Key: key, Op: op, Relevant: true}
+func oneEvent(c *Case, resKey, kind, key, op string) EvObs {
+	return historyEvent(c, resKey, kind, key, op, "")
+}
+
+// historyEvent: recreate != "" names a Policy; the controller is then started with that Policy stored in an unusable
+// form, a Secret sync runs (every Secret / App Protect sync lists the policies through getAllPolicies), the Policy is
+// deleted and created again in its usable form (same name, same metadata.generation), both notifications are synced,
+// and only then the event under test is delivered -- all on ONE controller instance.
+func historyEvent(c *Case, resKey, kind, key, op, recreate string) (ev EvObs) {
+	ev = EvObs{Kind: kind, Key: key, Op: op, Relevant: true, Recreate: recreate}
 	defer func() {
 		if p := recover(); p != nil {
 			ev.Err = "panic: " + fmt.Sprint(p)
 		}
 	}()
-	w, err := buildFull(c)
+	start := c
+	var polSpec PolicySpec
+	if recreate != "" {
+		cc := *c
+		cc.Cluster.Policies = append([]PolicySpec{}, c.Cluster.Policies...)
+		for i, p := range cc.Cluster.Policies {
+			if p.Ns+"/"+p.Name == recreate {
+				polSpec = p
+				cc.Cluster.Policies[i].Type = "empty" // no policy field: ValidatePolicy rejects it
+			}
+		}
+		start = &cc
+	}
+	w, err := buildFull(start)
 	if err != nil {
 		ev.Err = err.Error()
 		return ev
+	}
+	if recreate != "" {
+		w.c = c
+		warm := mkSecretObj("ns1/warm-up", true, 0)
+		_ = w.v.Secrets.Add(warm)
+		if _, err := w.v.Deliver("secret", "add", nil, warm); err != nil {
+			ev.Err = err.Error()
+			return ev
+		}
+		w.v.Drain()
+		broken := polSpec
+		broken.Type = "empty"
+		gone := mkPolicy(broken, 0)
+		_ = w.v.Policies.Delete(gone)
+		if _, err := w.v.Deliver("policy", "delete", gone, nil); err != nil {
+			ev.Err = err.Error()
+			return ev
+		}
+		w.v.Drain()
+		again := mkPolicy(polSpec, 0)
+		again.UID = "recreated"
+		_ = w.v.Policies.Add(again)
+		w.pols[recreate] = polSpec
+		if _, err := w.v.Deliver("policy", "add", nil, again); err != nil {
+			ev.Err = err.Error()
+			return ev
+		}
+		w.v.Drain()
 	}
 	found := false
 	for _, r := range w.v.Resources() {
@@ -2334,7 +2396,7 @@ func usable(c *Case, kind, key string) (ok bool, has bool) {
 	return false, false
 }
 
-func runEvents(c *Case, resKey string, revs []Rev) []EvObs {
+func runEvents(c *Case, resKey string, revs []Rev, pols []PolObs) []EvObs {
 	out := []EvObs{}
 	extra := 2
 	for _, r := range revs {
@@ -2373,7 +2435,28 @@ func runEvents(c *Case, resKey string, revs []Rev) []EvObs {
 			continue
 		}
 		for _, op := range ops {
-			out = append(out, oneEvent(c, resKey, r.Kind, key, op))
+			e := oneEvent(c, resKey, r.Kind, key, op)
+			e.Dep = r.Dep
+			out = append(out, e)
+		}
+		// a dependency reached through a Policy: the same events after that Policy was re-created (see historyEvent)
+		if r.Dep && (r.Kind == "secret" || r.Kind == "appolicy" || r.Kind == "aplogconf") {
+			for _, pk := range r.Via {
+				used := false
+				for _, p := range pols {
+					used = used || (p.Key == pk && p.Found && p.Valid)
+				}
+				if used {
+					for _, op := range ops {
+						if op == "update" || op == "delete" || op == "add" {
+							e := historyEvent(c, resKey, r.Kind, key, op, pk)
+							e.Dep = true
+							out = append(out, e)
+						}
+					}
+					break
+				}
+			}
 		}
 	}
 	// APUserSig -> APPolicy (signature requirements): not in the model (that store is C19's subject); the events are
